@@ -81,6 +81,31 @@ theorem once_second_visit_skips (W : World) (f g : Nat) (ctx ctx2 : Ctx) (st st'
   have : st''.seen.contains (getAttr attrs (S "v-once-id")) = true := by simpa using hin
   simp only [evalList, hh, Bool.true_and, this, ↓reduceIte]
 
+/-- (2d) the same for a `v-else-if` / `v-else` MEMBER that its chain selects: when the evaluation of the chain and of everything after it
+    returns, the member's id is in `seen` - so by `once_on_chain_member` every later selection of that member renders nothing -/
+theorem selected_member_marks_seen (W : World) (f : Nat) (ctx : Ctx) (st st' : St) (tag t : Str) (attrs a : List Attr) (kids k rest out : List Node) (n i : Nat)
+    (hpre : hasAttr attrs (S "v-pre") = false) (hfor : hasAttr attrs (S "v-for") = false) (hif : hasAttr attrs (S "v-if") = true)
+    (hsel : chainSelect (evalCondition W.P st.stack) (getAttr attrs (S "v-if")) rest = .ok (.member (i + 1), n))
+    (hget : rest[i]? = some (.elem t a k))
+    (h1 : hasAttr a (S "v-once") = true) (h2 : hasAttr a (S "v-for") = false) (hs : st.stack.scopes ≠ [])
+    (h : evalList W (f + 1) ctx st (.elem tag attrs kids :: rest) = .ok (out, st')) :
+    getAttr a (S "v-once-id") ∈ st'.seen := by
+  have hh : onceHereOf attrs = false := by simp [onceHereOf, hpre, hif]
+  cases hc : st.seen.contains (getAttr a (S "v-once-id")) with
+  | true => exact seen_only_grows W (f + 1) ctx st st' _ out hs h _ (by simpa using hc)
+  | false =>
+    have hg : onceGate st a = some { st with seen := st.seen ++ [getAttr a (S "v-once-id")] } := by
+      have hni : ¬ getAttr a (S "v-once-id") ∈ st.seen := by simpa using hc
+      simp [onceGate, h1, h2, hni]
+    have ih := frameAt W f
+    simp only [evalList, hh, Bool.false_and, Bool.false_eq_true, ↓reduceIte, hpre, hfor, hif, hsel, bindE, hget, hg,
+      Bool.not_true, Bool.true_and] at h
+    obtain ⟨res, st1, hr, hk⟩ := bindR_ok h
+    obtain ⟨o, ho, _⟩ := prepend_ok hk
+    have f1 := ih.asElem _ _ _ _ _ _ _ (by exact hs) hr
+    have f2 := ih.list _ _ _ _ _ (f1.1.nonempty (by exact hs)) ho
+    exact f2.2 _ (f1.2 _ (by simp))
+
 /-- (3) every render starts afresh: the evaluation of a page begins with an empty `seen` set -/
 theorem fresh_per_render (W : World) (fuel : Nat) (file : Str) (dom : List Node) (stack : Stack) :
     evaluatePage W fuel file dom stack = evalList W fuel { slots := [], chain := [file] } { stack := stack, seen := [] } (resolveTagsList W.comps dom) := rfl
